@@ -225,18 +225,6 @@ func withHints(assump []*Term, goal *Term) ([]*Term, *Term) {
 				insts[g] = true
 			}
 		}
-		// offset-aware matching: a select index of the form (v + rest) in the body is matched against
-		// the ground select indices of the goal by instantiating v := g - rest
-		if b.Sort == IntSort {
-			for _, rest := range linearRests(q.Args[0], b) {
-				for _, g := range goalIdx {
-					if len(insts) > 24 {
-						break
-					}
-					insts[Sub(g, rest)] = true
-				}
-			}
-		}
 		for c := range insts {
 			inst := Substitute(q.Args[0], map[string]*Term{b.Name: c})
 			if guard != nil {
@@ -245,65 +233,151 @@ func withHints(assump []*Term, goal *Term) ([]*Term, *Term) {
 			out = append(out, inst)
 		}
 	}
-	// further rounds: select indices that appeared in the instances of the previous round
-	known := map[*Term]bool{}
-	for _, g := range goalIdx {
-		known[g] = true
+	// array-aware matching (rounds): a select(A, v + rest) in a quantified assumption is matched against
+	// ground selects on the same array (or on the row of the same object in another heap version) by v := g - rest
+	seenSel := map[[2]int]bool{}
+	work := collectSelects([]*Term{goal}, seenSel, 64)
+	type qinfo struct {
+		guard, q *Term
+		pats     []selPat
+		done     map[*Term]bool
 	}
-	from := n
-	for round := 0; round < 3; round++ {
-		var idx2 []*Term
-		vis := map[*Term]bool{}
-		var w func(t *Term)
-		w = func(t *Term) {
-			if vis[t] || t.Op == "forall" || t.Op == "exists" {
-				return
-			}
-			vis[t] = true
-			if t.Op == "select" && t.Args[1].Sort == IntSort && !t.Args[1].hasBound && !known[t.Args[1]] && len(idx2) < 10 && t.Args[1].size < 120 {
-				known[t.Args[1]] = true
-				idx2 = append(idx2, t.Args[1])
-			}
-			for _, a := range t.Args {
-				w(a)
-			}
+	var qs []*qinfo
+	for i := 0; i < n; i++ {
+		a := out[i]
+		var guard *Term
+		q := a
+		if a.Op == "=>" && a.Args[1].Op == "forall" {
+			guard, q = a.Args[0], a.Args[1]
 		}
-		for _, t := range out[from:] {
-			w(t)
+		if q.Op != "forall" || len(q.Bound) != 1 || q.Bound[0].Sort != IntSort {
+			continue
 		}
-		if len(idx2) == 0 {
-			break
-		}
-		from = len(out)
-		m := len(out)
-		for i := 0; i < n; i++ {
-			a := out[i]
-			var guard *Term
-			q := a
-			if a.Op == "=>" && a.Args[1].Op == "forall" {
-				guard, q = a.Args[0], a.Args[1]
-			}
-			if q.Op != "forall" || len(q.Bound) != 1 || q.Bound[0].Sort != IntSort {
-				continue
-			}
-			b := q.Bound[0]
-			cnt := 0
-			for _, rest := range linearRests(q.Args[0], b) {
-				for _, g := range idx2 {
-					if cnt >= 20 || len(out)-m > 300 {
-						break
+		qs = append(qs, &qinfo{guard, q, selectPatterns(q.Args[0], q.Bound[0]), map[*Term]bool{}})
+	}
+	total := 0
+	for round := 0; round < 8 && len(work) > 0 && total < 700; round++ {
+		var added []*Term
+		for _, qi := range qs {
+			b := qi.q.Bound[0]
+			for _, p := range qi.pats {
+				for _, g := range work {
+					if !arraysMatch(p.arr, g.arr) {
+						continue
 					}
-					cnt++
-					inst := Substitute(q.Args[0], map[string]*Term{b.Name: Sub(g, rest)})
-					if guard != nil {
-						inst = Implies(guard, inst)
+					v := Sub(g.idx, p.rest)
+					if qi.done[v] || total >= 700 {
+						continue
+					}
+					qi.done[v] = true
+					total++
+					inst := Substitute(qi.q.Args[0], map[string]*Term{b.Name: v})
+					if qi.guard != nil {
+						inst = Implies(qi.guard, inst)
 					}
 					out = append(out, inst)
+					added = append(added, inst)
 				}
 			}
 		}
+		work = collectSelects(added, seenSel, 200)
 	}
 	return out, goal
+}
+
+type selPat struct {
+	arr  *Term
+	rest *Term
+}
+
+// selectPatterns finds, for every select in body whose index is v + rest (rest free of v), the array and rest.
+func selectPatterns(body, v *Term) []selPat {
+	var res []selPat
+	seen := map[*Term]bool{}
+	has := func(t *Term) bool { return t.hasBound && mentionsBound(t, v) }
+	var lin func(t *Term) (*Term, bool)
+	lin = func(t *Term) (*Term, bool) {
+		if t == v {
+			return IntLit(0), true
+		}
+		if len(t.Args) == 2 && (t.Op == "+" || t.Op == "-") {
+			a, b := t.Args[0], t.Args[1]
+			switch {
+			case has(a) && !has(b):
+				r, ok := lin(a)
+				if !ok {
+					return nil, false
+				}
+				if t.Op == "+" {
+					return Add(r, b), true
+				}
+				return Sub(r, b), true
+			case t.Op == "+" && has(b) && !has(a):
+				r, ok := lin(b)
+				if !ok {
+					return nil, false
+				}
+				return Add(r, a), true
+			}
+		}
+		return nil, false
+	}
+	var walk func(t *Term)
+	walk = func(t *Term) {
+		if seen[t] || !t.hasBound {
+			return
+		}
+		seen[t] = true
+		if t.Op == "select" && t.Args[1].Sort == IntSort && has(t.Args[1]) {
+			if r, ok := lin(t.Args[1]); ok && !r.hasBound {
+				res = append(res, selPat{t.Args[0], r})
+			}
+		}
+		for _, a := range t.Args {
+			walk(a)
+		}
+	}
+	walk(body)
+	return res
+}
+
+func arraysMatch(parr, garr *Term) bool {
+	if parr == garr || parr.hasBound {
+		return true
+	}
+	// rows of the same object in different versions of the heap
+	if parr.Op == "select" && garr.Op == "select" && parr.Args[1] == garr.Args[1] {
+		return true
+	}
+	return false
+}
+
+type groundSel struct{ arr, idx *Term }
+
+func collectSelects(ts []*Term, seen map[[2]int]bool, limit int) []groundSel {
+	var out []groundSel
+	vis := map[*Term]bool{}
+	var w func(t *Term)
+	w = func(t *Term) {
+		if vis[t] || t.Op == "forall" || t.Op == "exists" {
+			return
+		}
+		vis[t] = true
+		if t.Op == "select" && t.Args[1].Sort == IntSort && !t.Args[1].hasBound && !t.Args[0].hasBound {
+			k := [2]int{t.Args[0].id, t.Args[1].id}
+			if !seen[k] && len(out) < limit {
+				seen[k] = true
+				out = append(out, groundSel{t.Args[0], t.Args[1]})
+			}
+		}
+		for _, a := range t.Args {
+			w(a)
+		}
+	}
+	for _, t := range ts {
+		w(t)
+	}
+	return out
 }
 
 // linearRests finds, for every select in body whose index is v + rest (rest free of v), the term rest.
